@@ -121,7 +121,7 @@ def handleDs (o : Opts) (d0 : List Quad) : String :=
     let out := writeDocT nq d
     let shown := if o.set then ((d.map (writeQuadT nq)).mergeSort strLe).flatten else out
     let tooLong := match o.fail with
-      | some n => decide ((String.ofList out).utf8ByteSize > n)
+      | some n => (sinkRun n [utf8 out]).isNone      -- any chunking gives the same verdict (`sink_ok_iff`)
       | none => false
     if tooLong then reply ("out=err" :: cls)
     else if o.fail.isSome then
